@@ -105,7 +105,7 @@ def block(rnd, depth=0, with_tags=False, in_list=False):
         return "> [!%s]\n> %s" % (rnd.choice(("NOTE", "TIP", "WARNING")), paragraph(rnd, n=3, breaks=False, hazards=hz))
     if k == "fence":
         f = rnd.choice(("```", "````", "~~~"))
-        lang = rnd.choice(("", "py", "js {x=1}"))
+        lang = rnd.choice(("", "py", "js {x=1}", "py title=\"a\\_b\"", "sh prompt=\\$ re=\\d+\\.\\d+"))
         code = "\n".join(rnd.choice(["x = 1", "  indented", "", "``` not a fence", "~~~", "> quoted", "- item", "a  b", "\ttab",
                                       "{% tag %}", "\"q\" ... 'z'", "```", " ```", "   ````", "  ~~~~", "it's \"q\"",
                                       "...spread", "compiling...", "...     print(i)", "fmt...)", "wait... what",
